@@ -626,4 +626,137 @@ example :
       .ok (.ctx [("inner", .num ⟨false, 2, 0⟩), ("outer", .num ⟨false, 10, 0⟩)], [[("a", .num ⟨false, 10, 0⟩)]]) := by
   rfl
 
+/-! ## boxed expressions compose: every part is evaluated in its documented scope
+
+The statements below say, for boxed expressions nested in each other in any way, in which scope each part of a
+boxed context, a boxed invocation (and the boxed function definition, which has the same closure) and a relation is
+evaluated.  `hc` is the fact about the environment that every level of a requirement graph has
+(`topOnly_level_call`): a function body writes at most into the context pushed for its arguments. -/
+
+/-- **A boxed context is evaluated in a context of its own.**  The entries run in the enclosing scope with one empty
+context pushed on it; what they leave there is dropped, and the value is what the loop over the entries gives. -/
+theorem boxed_context_scope (env : Env) (entries : List Ast) (s : Scope) :
+    evalBoxed env (Boxed.context entries) s =
+      (match evalBoxedEntries env entries [] (Scope.push s []) with
+       | .ok (v, s') => .ok (v, Scope.pop s')
+       | .panic p => .panic p
+       | .diverge => .diverge) := by
+  simp only [Boxed.context, evalBoxed, Eval.bracket, bind, EvalM.bind, EvalM.push, EvalM.pop, pure, EvalM.pure]
+  cases evalBoxedEntries env entries [] (Scope.push s []) with
+  | ok r => rfl
+  | panic p => rfl
+  | diverge => rfl
+
+/-- **A named entry is visible to the entries after it, and to them only.**  Whatever boxed expression the entry's
+value is (nested in any way), it is evaluated in the scope as the earlier entries left it and leaves it unchanged;
+its value is bound to the entry's name in the top context — the one the boxed context pushed — and put into the
+result, and the remaining entries go on from there. -/
+theorem boxed_context_entry_scope (env : Env) (hc : ∀ b, EvalM.TopOnly (env.call b)) (name : String) (v : Ast)
+    (es : List Ast) (acc : Ctx) (s s' : Scope) (value : Value) (h : evalBoxed env v s = .ok (value, s')) :
+    s' = s ∧
+    evalBoxedEntries env (.contextEntry (.contextEntryKey name) v :: es) acc s =
+      evalBoxedEntries env es (Ctx.set acc name value) (Scope.setEntry s name value) := by
+  have hs : s' = s := pres_evalBoxed env hc v s value s' h
+  subst hs
+  refine ⟨rfl, ?_⟩
+  simp only [evalBoxedEntries, bind, EvalM.bind, h, EvalM.setEntry]
+
+/-- **The result entry sees every entry before it and is the value of the context**: an entry without a variable
+ends the loop with the value of its expression, evaluated in the scope the named entries before it have built;
+entries after it are not evaluated. -/
+theorem boxed_context_result_scope (env : Env) (r : Ast) (es : List Ast) (acc : Ctx)
+    (hr : ∀ name v, r ≠ .contextEntry (.contextEntryKey name) v) :
+    evalBoxedEntries env (r :: es) acc = evalBoxed env r := by
+  unfold evalBoxedEntries
+  split
+  · exact absurd rfl (hr _ _)
+  · rfl
+
+/-- A context without entries left is the context of the named entries. -/
+theorem boxed_context_end (env : Env) (acc : Ctx) (s : Scope) :
+    evalBoxedEntries env [] acc s = .ok (.ctx acc, s) := by
+  simp only [evalBoxedEntries, pure, EvalM.pure]
+
+/-- **A binding formula is evaluated in the enclosing scope** — whatever boxed expression it is — and sees neither
+the bindings before it nor anything they evaluated: the scope is the same for every binding, the values are
+collected in the parameter context only. -/
+theorem boxed_invocation_binding_scope (env : Env) (hc : ∀ b, EvalM.TopOnly (env.call b)) (name : String) (v : Ast)
+    (bs : List Ast) (acc : Ctx) (s s' : Scope) (value : Value) (h : evalBoxed env v s = .ok (value, s')) :
+    s' = s ∧
+    evalBoxedBindings env (.namedParameter (.parameterName name) v :: bs) acc s =
+      evalBoxedBindings env bs (Ctx.set acc name value) s := by
+  have hs : s' = s := pres_evalBoxed env hc v s value s' h
+  subst hs
+  refine ⟨rfl, ?_⟩
+  simp only [evalBoxedBindings, bind, EvalM.bind, h]
+
+/-- **A boxed invocation** (and a boxed function definition): the bindings are evaluated in the enclosing scope,
+then the called function — any boxed expression — in the same scope; when it is a function value its body runs in
+the enclosing scope with the parameter context pushed, the context is popped, and the value is converted to the
+result type of the function; when it is not a function value the invocation is null. -/
+theorem boxed_invocation_scope (env : Env) (f : Ast) (bindings : List Ast) (s : Scope) (params : Ctx) (fv : Value)
+    (hb : evalBoxedBindings env bindings [] s = .ok (params, s)) (hf : evalBoxed env f s = .ok (fv, s)) :
+    evalBoxed env (Boxed.invocation f bindings) s =
+      (match fv with
+       | .fn _ body rt =>
+         (match env.call body (Scope.push s params) with
+          | .ok (r, s') => .ok (Value.coerced rt r, Scope.pop s')
+          | .panic p => .panic p
+          | .diverge => .diverge)
+       | _ => .ok (.null, s)) := by
+  simp only [Boxed.invocation, evalBoxed, bind, EvalM.bind, hb, hf]
+  cases fv with
+  | fn ps body rt =>
+    simp only [Eval.bracket, bind, EvalM.bind, EvalM.push, EvalM.pop, pure, EvalM.pure]
+    cases env.call body (Scope.push s params) with
+    | ok r => rfl
+    | panic p => rfl
+    | diverge => rfl
+  | _ => rfl
+
+/-- **A relation**: every cell of a row — any boxed expression — is evaluated in the enclosing scope (the cells are
+collected like bindings, `boxed_invocation_binding_scope`), each row gives one context keyed by the column names. -/
+theorem boxed_relation_row_scope (env : Env) (cells rs : List Ast) (s : Scope) (c : Ctx) (rest : List Value)
+    (hcells : evalBoxedBindings env cells [] s = .ok (c, s)) (hrest : evalBoxedRows env rs s = .ok (rest, s)) :
+    evalBoxedRows env (.namedParameters cells :: rs) s = .ok (.ctx c :: rest, s) ∧
+    (evalBoxed env (Boxed.relation rs) s = .ok (.list rest, s)) := by
+  constructor
+  · simp only [evalBoxedRows, bind, EvalM.bind, hcells, hrest, pure, EvalM.pure]
+  · simp only [Boxed.relation, evalBoxed, bind, EvalM.bind, hrest, pure, EvalM.pure]
+
+/-- **A decision table nested in a boxed expression** (a context entry, a binding, the body of a knowledge model)
+is evaluated in the scope of the place it stands at: its closure is the table closure of `table_logic_spec`. -/
+theorem boxed_table_scope (env : Env) (hitPolicy : String) (inputs outputs rules : List Ast) :
+    evalBoxed env (.commaList [.instanceOf (.string hitPolicy)
+      (.expressionList [.expressionList inputs, .expressionList outputs, .expressionList rules])]) =
+    Drg.evalTable env hitPolicy inputs outputs rules := by
+  simp only [evalBoxed]
+
+/-- the logic `{k: 2, <result> f(p: {x: k + 1, <result> x + 10}, q: k)}` with `f` bound to `function(p, q) p - q`
+in the scope: a context nested in a binding of an invocation nested in the result entry of a context -/
+def nestedComposeWitness : Ast :=
+  Boxed.context [
+    .contextEntry (.contextEntryKey "k") (.numeric "2" ""),
+    Boxed.invocation (.name "f") [
+      .namedParameter (.parameterName "p") (Boxed.context [
+        .contextEntry (.contextEntryKey "x") (.add (.name "k") (.numeric "1" "")),
+        .add (.name "x") (.numeric "10" "")]),
+      .namedParameter (.parameterName "q") (.name "k")]]
+
+-- Non-vacuity of the hypotheses above: a named entry and a binding evaluate (`h`), and the nested witness has the
+-- value its parts give in their scopes — the result entry sees `k`, the nested context sees `k` and its own `x`,
+-- the invocation is null here because `witnessBase` binds no function `f` (the branch `| _ => null`).
+example :
+    evalBoxed witnessBase (.numeric "2" "") [[]] = .ok (.num ⟨false, 2, 0⟩, [[]]) ∧
+    evalBoxedBindings witnessBase [.namedParameter (.parameterName "q") (.name "k")] [] [[("k", .num ⟨false, 2, 0⟩)]] =
+      .ok ([("q", .num ⟨false, 2, 0⟩)], [[("k", .num ⟨false, 2, 0⟩)]]) ∧
+    evalBoxed witnessBase (Boxed.context [
+        .contextEntry (.contextEntryKey "x") (.add (.name "k") (.numeric "1" "")),
+        .add (.name "x") (.numeric "10" "")]) [[("k", .num ⟨false, 2, 0⟩)]] =
+      .ok (.num ⟨false, 13, 0⟩, [[("k", .num ⟨false, 2, 0⟩)]]) ∧
+    evalBoxed witnessBase nestedComposeWitness [[]] = .ok (.null, [[]]) ∧
+    evalBoxedRows witnessBase [.namedParameters [.namedParameter (.parameterName "c0") (.numeric "1" "")]] [[]] =
+      .ok ([.ctx [("c0", .num ⟨false, 1, 0⟩)]], [[]]) := by
+  refine ⟨rfl, rfl, rfl, rfl, rfl⟩
+
 end Dmn.Drg
